@@ -13,6 +13,7 @@ Record GWrappingIndex := Build_WrappingIndex { f_WrappingIndex_row : Z; f_Wrappi
 (* Matrix<T> as far as the kernel looks at it: order, shape, data.len() *)
 Record GMatrix := Build_Matrix { f_Matrix_order : order; f_Matrix_shape : AxisShape; f_Matrix_data : Z }.
 Definition vec_len (n : Z) : Z := n.
+Definition set_Matrix_shape (m : GMatrix) (s : AxisShape) := Build_Matrix (f_Matrix_order m) s (f_Matrix_data m).
 
 Definition f_Shape_nrows := sh_nrows.
 Definition f_Shape_ncols := sh_ncols.
